@@ -11,6 +11,12 @@ about the code as it is now, and a change of any translated function breaks a pr
 -/
 namespace MpVerif.C13
 
+/-- `f(x) = x` on `[-10,10]` (a concrete record for the examples of this file) -/
+def idFnG : Fn :=
+  { eval := fun x => .fin x, inv := fun _ y => .fin y, d1 := fun _ => .fin 1, invd1 := fun _ _ => .nan,
+    d2 := fun _ => .fin 0, dom := ⟨-10, 10, -10, 10⟩, accLb := -1000, accUb := 1000,
+    monotone := false, periodic := false, perLb := -1000, perUb := 1000, bps := [-10, 10] }
+
 theorem eps4_lit : eps4 = (7378697629483821 : Rat) / (73786976294838206464 : Rat) := rfl
 theorem eps6_lit : eps6 = (4722366482869645 : Rat) / (4722366482869645213696 : Rat) := rfl
 theorem eps10_lit : eps10 = (7737125245533627 : Rat) / (77371252455336267181195264 : Rat) := rfl
@@ -60,6 +66,27 @@ theorem C13_clipVals_finite (f : Fn) (d : Dom) (a b c e : Rat)
   simp only [h1, h2, h3, h4, getFin, ovMin, ovMax, OV.lt, bind, Except.bind, pure, Except.pure, maxFin, minFin,
     max_eq_ite, min_eq_ite]
   by_cases hce : c < e <;> by_cases hec : e < c <;> simp [hce, hec, maxFin, minFin] <;> (refine ⟨?_, ?_⟩ <;> rfl)
+
+/-- **`ClipFuncGraphDomain`** (incl. its statement order: the reported domain `grDomOut` and the interval `lbx_, ubx_`
+the approximation is built on are all taken AFTER the clipping through function values): the model's `clipDomain`
+yields `d` (used by `run` as reported domain and as `[lbx_, ubx_]`) exactly when the generated function yields
+`(d, d.lbx, d.ubx)`; `clip` is whatever `ClipWithFunctionValues` computes on the intersected domain when the record is
+monotone (tied separately: `C13_gen_clipWithFunctionValues`, `C13_clipVals_finite`). -/
+theorem C13_gen_clipFuncGraphDomain (f : Fn) (p : Params) (clip : Dom → Dom)
+    (hclip : f.monotone = true → clipVals f (p.dom.intersect f.dom) = .ok (clip (p.dom.intersect f.dom))) :
+    (clipDomain f p).toOption.map (fun d => (d, d.lbx, d.ubx)) =
+      Gen.C13.clipFuncGraphDomain f.accLb f.accUb f.dom (f.monotone = true) clip p.dom := by
+  unfold clipDomain Gen.C13.clipFuncGraphDomain
+  rw [← C13_gen_intersect]
+  by_cases hacc : f.accLb ≤ p.dom.lbx ∧ p.dom.ubx ≤ f.accUb
+  · by_cases hm : f.monotone = true
+    · simp [hacc, hm, hclip hm, bind, Except.bind, Except.toOption]
+    · simp [hacc, hm, bind, Except.bind, Except.toOption, pure, Except.pure]
+  · simp [hacc, bind, Except.bind, Except.toOption, throw, throwThe, MonadExceptOf.throw]
+
+/-- non-vacuity: a monotone record whose result bound cuts the argument (`y ≤ 4` for `f(x) = x` on `[-3, 8]`) -/
+example : (clipDomain { idFnG with monotone := true } { dom := ⟨-3, 8, -10, 4⟩, isInt := false, ubErr := 1/100 }).toOption
+    = some ⟨-3, 4, -3, 4⟩ := by decide +kernel
 
 /-- locals of `maxErrorRelAbove1`: slope, the two tilted slopes, the per-point error measure -/
 theorem C13_gen_maxErr_locals (o : FOps) (x0 y0 x1 y1 s ubErr fv y : Rat) :
@@ -118,6 +145,75 @@ theorem C13_gen_addPoint_merge_small (o : FOps) (size : Int) (hs : size < 2) (yA
   have : (2 : Rat) ≤ (size : Rat) := h.1.1
   have : (2 : Int) ≤ size := by exact_mod_cast this
   omega
+
+/-- the effect of an `AddPoint` action on the stored points (kept back to front) -/
+def applyAction (a : Nat) (pl : PL) (x y : Rat) : PL :=
+  match a, pl with
+  | 0, pl => pl
+  | 1, (_, byy) :: rest => (x, byy) :: rest
+  | 1, [] => []
+  | _, pl => (x, y) :: pl
+
+/-- abscissa of the last stored point (`x_.back()`; arbitrary on the empty PL, where the C++ does not read it) -/
+def backX (pl : PL) : Rat := (pl.head?.map Prod.fst).getD 0
+
+/-- `y_[i]` for the two indices `AddPoint` reads: `size-1` and `size-2` -/
+def yAtOf (pl : PL) (i : Rat) : Rat :=
+  if i = ((pl.length : Int) : Rat) - (1 : Rat) then ((pl[0]?).map Prod.snd).getD 0
+  else if i = ((pl.length : Int) : Rat) - (2 : Rat) then ((pl[1]?).map Prod.snd).getD 0 else 0
+
+theorem not_two_le_zero : ¬ ((2 : Rat) ≤ (((0 : Nat) : Int) : Rat)) := by decide +kernel
+theorem not_two_le_one : ¬ ((2 : Rat) ≤ (((1 : Nat) : Int) : Rat)) := by decide +kernel
+
+/-- **the whole of `PLPoints::AddPoint`** (branch structure and both effects, not only its two tests): the model's `addPoint`
+is the generated action applied to the stored points, for every PL, point and arithmetic -/
+theorem C13_gen_addPoint_action (o : FOps) (pl : PL) (x y : Rat) :
+    addPoint o pl x y =
+      applyAction (Gen.C13.addPointAction o (pl = []) (backX pl) x (pl.length : Int) (yAtOf pl) y) pl x y := by
+  unfold Gen.C13.addPointAction
+  match pl with
+  | [] =>
+    have h0 : ¬ ((2 : Rat) ≤ (((([] : PL).length : Nat) : Int) : Rat)) := not_two_le_zero
+    rw [if_pos (Or.inl rfl), if_neg (fun h => h0 h.1.1)]
+    rfl
+  | [(bx, byy)] =>
+    have h1 : ¬ ((2 : Rat) ≤ (((([(bx, byy)] : PL).length : Nat) : Int) : Rat)) := not_two_le_one
+    have hne : ¬ ([(bx, byy)] = ([] : PL)) := by simp
+    have hb : backX [(bx, byy)] = bx := rfl
+    rw [hb, ← eps4_lit]
+    by_cases hk : fadd o bx eps4 < x
+    · rw [if_pos (Or.inr hk), if_neg (fun h => h1 h.1.1)]
+      have : keepCond o bx x := hk
+      simp only [addPoint, if_pos this, applyAction]
+    · rw [if_neg (fun h => h.elim hne hk)]
+      have : ¬ keepCond o bx x := hk
+      simp only [addPoint, if_neg this, applyAction]
+  | (bx, byy) :: (x2, y2) :: rest =>
+    have hlen : (2 : Rat) ≤ (((((bx, byy) :: (x2, y2) :: rest).length : Nat) : Int) : Rat) := by
+      have : (2 : Int) ≤ ((((bx, byy) :: (x2, y2) :: rest).length : Nat) : Int) := by
+        simp only [List.length_cons]; omega
+      exact_mod_cast this
+    have e1 : yAtOf ((bx, byy) :: (x2, y2) :: rest)
+        ((((((bx, byy) :: (x2, y2) :: rest).length : Nat) : Int) : Rat) - (1 : Rat)) = byy := by
+      unfold yAtOf; rw [if_pos rfl]; rfl
+    have e2 : yAtOf ((bx, byy) :: (x2, y2) :: rest)
+        ((((((bx, byy) :: (x2, y2) :: rest).length : Nat) : Int) : Rat) - (2 : Rat)) = y2 := by
+      unfold yAtOf
+      rw [if_neg (by intro h; grind), if_pos rfl]; rfl
+    have hne : ¬ ((bx, byy) :: (x2, y2) :: rest = ([] : PL)) := by simp
+    have hb : backX ((bx, byy) :: (x2, y2) :: rest) = bx := rfl
+    rw [hb, e1, e2, ← eps4_lit]
+    by_cases hk : fadd o bx eps4 < x
+    · have hkc : keepCond o bx x := hk
+      rw [if_pos (Or.inr hk)]
+      by_cases hm : byy = y ∧ y2 = y
+      · rw [if_pos ⟨⟨hlen, hm.1⟩, hm.2⟩]
+        simp only [addPoint, if_pos hkc, if_pos hm, applyAction]
+      · rw [if_neg (fun h => hm ⟨h.1.2, h.2⟩)]
+        simp only [addPoint, if_pos hkc, if_neg hm, applyAction]
+    · have hkc : ¬ keepCond o bx x := hk
+      rw [if_neg (fun h => h.elim hne hk)]
+      simp only [addPoint, if_neg hkc, applyAction]
 
 /-- the 17 function types the model's harness covers, with the flags that select `ClipWithFunctionValues`
 (monotone) and the periodic path -/
